@@ -377,11 +377,11 @@ func plant(n *model.Node, p []string, sub *model.Node) {
 
 // listy generates a subtree in which lists meet lists: a list of primitives,
 // or a small dictionary of such lists.
-func listy(r *rand.Rand) *model.Node {
+func listy(r *rand.Rand, prims []interface{}) *model.Node {
 	mk := func() *model.Node {
 		n := model.List()
 		for i, c := 0, 1+r.Intn(3); i < c; i++ {
-			n.A = append(n.A, model.P(gen.Prims[r.Intn(len(gen.Prims))]))
+			n.A = append(n.A, model.P(prims[r.Intn(len(prims))]))
 		}
 		return n
 	}
@@ -462,13 +462,6 @@ func mergeLib(a, b *model.Node, opts []ucfg.Option) (*ucfg.Config, error) {
 		}
 	}
 	return c, nil
-}
-
-func mergeModel(a, b *model.Node, pol model.PolicyFn) *model.Node {
-	m := &model.Node{Kind: model.KSub}
-	model.Merge(m, a.Copy(), nil, pol)
-	model.Merge(m, b.Copy(), nil, pol)
-	return m
 }
 
 // isStarForm: the path uses the single-level wildcard.
@@ -565,6 +558,14 @@ func (check) Run(seed int64, tier string, idx int, verbose bool) harness.Result 
 	res := harness.NewR(idx)
 	r := rand.New(rand.NewSource(harness.Mix(seed, "C16", idx)))
 	o := gen.TreeOpts{ListBias: true}
+	prims := gen.Prims
+	// a third of the cases also runs with a destination that holds references
+	// (refs.go); their trees avoid strings VarExp reads as syntax
+	refMode := r.Intn(3) == 0
+	if refMode {
+		prims = noDollar
+		o.Prims = noDollar
+	}
 	g := globals[r.Intn(len(globals))]
 	a := gen.Top(r, o, 3)
 	b := gen.MutateTop(r, o, a, 3)
@@ -623,7 +624,7 @@ func (check) Run(seed int64, tier string, idx int, verbose bool) harness.Result 
 		}
 		var real, dec []pl
 		for _, f := range fos {
-			sa := listy(r)
+			sa := listy(r, prims)
 			if isDoubleStar(f.path) {
 				// some concrete place called name
 				var p []string
@@ -681,6 +682,13 @@ func (check) Run(seed int64, tier string, idx int, verbose bool) harness.Result 
 		res.Sample = desc
 	}
 
+	// the destination with references (refs.go); needs a top-level dictionary
+	var aRef *model.Node
+	var sites []refSite
+	if refMode && !a.HasA && len(a.A) == 0 && len(a.D) > 0 {
+		aRef, sites = buildRefTree(r, a, fos, decoys)
+	}
+
 	// Option values are created ONCE per case and reused by all rounds below.
 	vals := make([]ucfg.Option, len(fos))
 	for i, f := range fos {
@@ -724,6 +732,58 @@ func (check) Run(seed int64, tier string, idx int, verbose bool) harness.Result 
 		}
 		return got, ok
 	}
+	// checkRef repeats a call (destination a, source y) with the destination
+	// that holds references and compares with gotPlain, the result for the
+	// literal destination. Not under a global replace: it drops the referenced
+	// top-level settings, what is left of A may then refer to nothing.
+	checkRef := func(gl int, fs []fopt, y *model.Node, gotPlain, d string) {
+		if aRef == nil {
+			return
+		}
+		if globals[gl].p == model.PReplace {
+			res.Ev("ref_calls_skipped_global_replace", 1)
+			return
+		}
+		d = fmt.Sprintf("%s; destination with references %v: %s", d, sites, aRef)
+		run := func(fieldOpts []ucfg.Option) (got string, ok bool) {
+			panicked, pv, where := harness.Safe(func() {
+				var problem string
+				var err error
+				got, problem, err = mergeLibRef(aRef, y, sites, append(append([]ucfg.Option{}, globals[gl].opts...), fieldOpts...))
+				res.Eval(4)
+				if err != nil {
+					res.Violate("error-with-destination-reference", "%v; %s", err, d)
+					return
+				}
+				if problem != "" {
+					res.Violate("merge-through-reference-modifies-referenced-setting", "%s; %s", problem, d)
+				}
+				ok = true
+			})
+			if panicked {
+				res.Violate("panic", "panic %q at %s; %s", pv, where, d)
+				return "", false
+			}
+			return got, ok
+		}
+		gotRef, ok := run(fresh(fs))
+		if !ok {
+			return
+		}
+		res.Ev("ref_calls", 1)
+		if gotRef == gotPlain {
+			return
+		}
+		// is this about the per-field options at all?
+		r0, ok1 := run(nil)
+		p0, ok2 := lib(a, y, mkOpts(globals[gl].opts, nil), d)
+		if ok1 && ok2 && r0 != p0 {
+			res.Violate("destination-reference-changes-merge-result", "merging onto a setting that refers to a value gives another result than merging onto that value, even without per-field options: with references %s, literal %s; %s", r0, p0, d)
+			return
+		}
+		res.Violate("destination-reference-changes-field-policy-result", "with per-field options, merging onto a setting that refers to a value gives another result than merging onto that value (the options name the path of the referring setting): with references %s, literal %s; %s", gotRef, gotPlain, d)
+	}
+
 	// classify compares a library result with the statement's model and names
 	// the deviation; known = explained by the (repaired) subsequence leak.
 	classify := func(got string, gl int, fs []fopt, x, y *model.Node, d string) (known bool) {
@@ -738,6 +798,10 @@ func (check) Run(seed int64, tier string, idx int, verbose bool) harness.Result 
 		}
 		if got == strict {
 			return false
+		}
+		if got == walkAsBuilt(x, y, strictPolicy(gp, fs)).CanonTop() {
+			res.Violate("field-policy-inside-enclosing-replace-has-no-effect", "an option with a merging policy whose subtree lies below a node merged under replace (global ReplaceValues or an enclosing FieldReplaceValues) has nothing left to merge with, the old named settings are dropped before any field is looked at: got %s want %s; %s", got, strict, d)
+			return true
 		}
 		if leak != "" && got == leak {
 			res.Violate("field-policy-leaks-to-subsequence-paths", "a field option is applied at a node whose path merely contains the option path as a subsequence: got %s want %s; %s", got, strict, d)
@@ -833,6 +897,53 @@ func (check) Run(seed int64, tier string, idx int, verbose bool) harness.Result 
 		res.Key(desc)
 		res.Ev("option_changes_result", 1)
 	}
+	if aRef != nil {
+		res.Ev("ref_cases", 1)
+		decisive := false
+		for _, st := range sites {
+			kind := "object"
+			if st.list {
+				kind = "list"
+			}
+			if st.chain {
+				kind += "/chain"
+			}
+			res.SetAdd("ref_target", kind)
+			if nb := nodeAt(b, st.path); nb.IsSub() {
+				res.Ev("ref_sites_meeting_a_container_of_B", 1)
+			}
+			for _, f := range fos {
+				switch {
+				case isDoubleStar(f.path):
+					if matchEnd(st.path, f.path) >= 0 {
+						res.Ev("ref_sites_inside_option_subtree", 1)
+						decisive = true
+					}
+				case samePath(st.path, f.path):
+					res.Ev("ref_sites_at_option_path", 1)
+					decisive = true
+				case model.HasPrefix(f.path, st.path):
+					res.Ev("ref_sites_above_option_path", 1)
+					decisive = true
+				case model.HasPrefix(st.path, f.path):
+					res.Ev("ref_sites_inside_option_subtree", 1)
+					decisive = true
+				}
+			}
+			for _, dc := range decoys {
+				if related(st.path, dc.path) {
+					res.Ev("ref_sites_on_decoy", 1)
+				}
+			}
+		}
+		if len(sites) > 1 && model.HasPrefix(sites[0].path, sites[1].path) {
+			res.Ev("ref_site_inside_referenced_value", 1)
+		}
+		if decisive && strict != plain.CanonTop() && g.p != model.PReplace {
+			res.Ev("ref_cases_where_options_decide", 1)
+		}
+		checkRef(gl, fos, b, got, desc)
+	}
 	known := classify(got, gl, fos, a, b, desc)
 
 	// --- further rounds: the SAME Option values in other calls (another
@@ -883,6 +994,9 @@ func (check) Run(seed int64, tier string, idx int, verbose bool) harness.Result 
 			if gotR != gotF {
 				res.Violate("reused-option-value-carries-state-across-merges", "an Option value that already took part in other Merge calls gives another result than a newly created one: reused %s, new %s; %s", gotR, gotF, d)
 				break
+			}
+			if x == a {
+				checkRef(g2, fs, y, gotF, d)
 			}
 			if classify(gotR, g2, fs, x, y, d) || len(res.Violations) > 0 {
 				break
